@@ -42,7 +42,16 @@ MAP = [
  ("S45", "C07", "A", "seek-rewind-advances-in-place-when-checkpoint-exists", "a cursor rewinds on a worldline that has a checkpoint at or before the target", "first run: missed"),
  ("S46", "C07", "B", "fork-partition-point-keeps-checkpoint-at-fork-plus-two", "source checkpoint at exactly fork_tick+2, fork not at the tip, child commits its own tick, seek past it", "first run: caught (C07.R5 linear-form bound, from S07)"),
  ("S48", "C08", "B", "restore-correlation-returns-early-when-present", "commit through the ticketed path, run persistence+history restore on the same live runtime, then retry via ingest", "first run: missed (C08/A of the same agent repeated S08 and was caught by the S08 rule; not stored twice)"),
+ ("S49", "C09", "A", "overflow-preflight-folded-into-commit-loop", "a head with work on a worldline at WorldlineTick::MAX that is not the first committing head in canonical order", "first run: caught (C09.R1 err-return-passes-*-restore, C09.R7)"),
+ ("S50", "C09", "B", "provenance-markers-taken-lazily-per-head", "two heads on the same worldline that both commit in one pass, then any failure later in the pass", "first run: missed (the S09 rule only knew the runtime checkpoint)"),
+ ("S51", "C10", "A", "epoch-ledger-persisted-before-commit-marker", "a flush fault on a later transaction after its frames were written, process loss, a recovered host that acknowledges new work", "first run: caught (C10.R1 flush_commit:ledger-after-marker)"),
+ ("S52", "C10", "B", "retry-index-keeps-only-pending-submissions", "an acknowledged submission decided by a committed tick, a restart, then a retry of that exact envelope", "first run: missed"),
+ ("S53", "C11", "A", "segment-evidence-from-the-recovery-scan", "a sealed, manifested log with >=3 transactions and only the commit marker of a non-final transaction deleted", "first run: missed"),
+ ("S54", "C11", "B", "ledger-reconciliation-uses-active-epoch-horizon", "a root that went through three writer epochs with a foreign transaction spliced over the middle epoch's", "first run: missed — and still NOT decided (see below)"),
+ ("S55", "C13", "A", "edict-map-values-decoded-at-same-depth", "~32 000 levels of nesting through map values (about 64 KiB of input)", "first run: missed (R3 checked that a depth is compared, not that every recursive call advances it)"),
+ ("S56", "C13", "B", "ingress-count-guard-multiplies-before-comparing", "a declared causal-parent count >= ~2^64/177 in a ~50 byte retained envelope", "first run: caught (C13.R6, written for S17, generalised)"),
 ]
+SRC_PREFIX = {k: "out1" for k in ("S09", "S10", "S11", "S12", "S13", "S14", "S15", "S16", "S17", "S18", "S19", "S20", "S21", "S22", "S23", "S24", "S25", "S26", "S27", "S28")}
 CHANGE = {
  "S09": "`checkpoint_for` replaced by a lazy per-head capture inside the commit loop: a second head on the same worldline overwrites the saved pre-pass frontier with one that already contains the first head's commit",
  "S10": "receipt-correlation undo entry is pushed after the index update, so `previous_pending_submission` is read after the removal and rollback never re-inserts the submission",
@@ -81,12 +90,20 @@ CHANGE = {
  "S44": "WSC build: node and edge attachment tables built by one helper with an arena each; arenas concatenated without rebasing offsets",
  "S45": "`seek_to` decision rewritten as a match on `checkpoint_before`: the Some arm drops `target < self.tick`",
  "S46": "`fork` checkpoint filter rewritten with `partition_point` on child tip + 1 but keeping `<=`",
+ "S49": "the frontier-tick-overflow preflight loop is folded into the per-head commit loop; its early `return Err` now runs after earlier heads committed and never restores",
+ "S50": "provenance rollback markers are taken lazily inside each head's commit closure (`checkpoint_worldline`), overwriting the marker of an earlier head on the same worldline",
+ "S51": "`flush_commit_with_capabilities` persists the writer-epoch closure/ledger before the commit marker is appended",
+ "S52": "`TrustedRuntimeWal::from_config` rebuilds the retry index from `AcceptedPending` entries only",
+ "S53": "`filesystem_wal_recovery_segment_evidence` digests the frames of the caller's recovery report instead of re-reading the segment files",
+ "S54": "`reconcile_writer_epoch_closures`: `retained_start_lsn` prefers the active epoch's start over the oldest retained closed epoch's",
+ "S55": "Edict `Decoder::value` map branch decodes the map value with `self.value(depth)` instead of `depth + 1`",
+ "S56": "retained-ingress parent-count guards folded into a `read_count` helper that checks `count * encoded_len > remaining`",
  "S48": "`restore_receipt_correlation` returns Ok early when the correlation is already present, skipping the committed-ingress refill",
  "S40": "`diff_edges` matches edges through the reverse indexes (from/to only): a type-only change emits no `UpsertEdge`",
 }
 res = json.load(open("/tmp/seeds/seed_results.json")) if os.path.exists("/tmp/seeds/seed_results.json") else {}
 for sid, prop, var, slug, needs, first in MAP:
-    src = "/tmp/seeds/out-%s/%s" % (prop, var)
+    src = "/tmp/seeds/%s-%s/%s" % (SRC_PREFIX.get(sid, "out"), prop, var)
     if not os.path.exists(src + "/patch.diff"):
         print("missing", src); continue
     dst = "%s/%s-%s-%s" % (V, sid, prop.lower(), slug)
@@ -96,7 +113,7 @@ for sid, prop, var, slug, needs, first in MAP:
         shutil.copy(os.path.join(src, "demo", f), os.path.join(dst, "demo", f))
     if os.path.exists(src + "/notes.md"):
         shutil.copy(src + "/notes.md", dst + "/agent_notes.md")
-    log = "/tmp/seeds/confirm-logs/%s-%s.log" % (prop, var)
+    log = "/tmp/seeds/confirm-logs/%s%s-%s.log" % ("r3-" if sid >= "S49" else "", prop, var)
     confirmed, conf_txt = False, "confirmation pending"
     if os.path.exists(log):
         t = open(log).read()
